@@ -7,6 +7,7 @@ bumble's own parsers; UUIDs travel as 32-hex-digit strings (128-bit form).
 from __future__ import annotations
 
 import asyncio
+import random
 import struct
 
 from lib import rig, vt
@@ -233,7 +234,7 @@ def all_services(roots):
 
 # ----------------------------------------------------------------------------- events
 _DEF = {"e": "", "cm": 0, "sm": 0, "gc": 0, "gs": 0, "rows": [], "wsvc": [], "winc": [], "wchr": [], "wdsc": [], "wcccd": [],
-        "dsvc": [], "dinc": [], "dchr": [], "ddsc": [], "items": [], "u": "", "h": 0, "n": 0, "ver": 0, "api": ""}
+        "dsvc": [], "dinc": [], "dchr": [], "ddsc": [], "items": [], "u": "", "h": 0, "n": 0, "ver": 0, "api": "", "s": 0, "f": []}
 
 
 def ev(e, **kw):
@@ -321,6 +322,28 @@ async def run_case(rng, plan, cm, sm, defaults=True, max_delay=0.0, seed=0, clie
                     ddsc.append({"c": cp.handle, "h": dp.handle, "u": canon_le(dp.type.to_bytes())})
                     proxies[dp.handle] = dp
         trace.append(ev("disc", dsvc=dsvc, dinc=dinc, dchr=dchr, ddsc=ddsc))
+        # ---- characteristics by UUID: the proxies of a filtered discovery are those of the full one (same handle ranges,
+        #      hence the same descriptors), restricted to the wanted UUIDs
+        bysvc = {}
+        for c in dchr:
+            bysvc.setdefault(c["s"], []).append(c)
+        svc_proxy = {sp.handle: sp for sp in found}
+        filt = [(sh, cs) for sh, cs in sorted(bysvc.items()) if sh in svc_proxy]
+        rng2 = random.Random(seed * 7919 + 13)
+        for sh, cs in filt[:4]:
+            us = sorted({c["u"] for c in cs})
+            picks = [[us[0]], [us[-1]]] + ([[rng2.choice(us)]] if len(us) > 2 else []) + ([us[::2]] if len(us) > 2 else [])
+            src = {canon_le(ch.uuid.to_bytes()): ch.uuid for s_ in services for ch in s_.characteristics}
+            for f in picks[: 2 if len(us) < 2 else 4]:
+                if any(u not in src for u in f):
+                    continue
+                got = await api("discover_characteristics", client.discover_characteristics([src[u] for u in f], svc_proxy[sh]))
+                items, fd = [], []
+                for cp in got:
+                    items.append({"s": sh, "h": cp.handle, "e": cp.end_group_handle, "u": canon_le(cp.uuid.to_bytes()), "p": int(cp.properties)})
+                    for dp in await api("discover_descriptors", client.discover_descriptors(cp)):
+                        fd.append({"c": cp.handle, "h": dp.handle, "u": canon_le(dp.type.to_bytes())})
+                trace.append(ev("discf", s=sh, f=list(f), items=items, ddsc=fd))
         # ---- discover by service UUID, discover all attributes
         for u in sorted({r["u"] for r in rows if r["k"] == "svc"})[:3]:
             width_src = next(s for s in services if canon_le(s.uuid.to_bytes()) == u)
